@@ -26,6 +26,10 @@ def plan(tier):
         for tk in space.tasks(n, k, ALPHA, split):
             tk.update(pol=pol)
             t.append(tk)
+    for pat in ('not-and', 'cmp', 'or3'):
+        for L in space.DEEP_LENGTHS[tier][:2]:
+            for st in ('fwd', 'rev'):
+                t.append({'kind': 'deep', 'pattern': pat, 'L': L, 'storage': st})
     if tier == 'quick':
         # slices with inner structure AND outside users need >= 3 gates: a small-alphabet family,
         # replace_subcircuit only, two replacement styles
@@ -37,7 +41,7 @@ def plan(tier):
 
 def describe(tier):
     return {
-        'rule': 'circuit of F(n,k,{NOT,AND,GT,XOR,TRUE,FALSE}) x output policy x {no block, block over the last gate whose first input is both block input and block output}: '
+        'rule': 'deep: rename (inner gate, last gate, an input with a thousand users), replace_inputs and remove_gate on chains of 1200/3000 gates; circuit of F(n,k,{NOT,AND,GT,XOR,TRUE,FALSE}) x output policy x {no block, block over the last gate whose first input is both block input and block output}: '
         'rename_gate(every node -> fresh label), replace_inputs(every assignment of {keep,True,False} to the inputs; also after the input order was changed by set_inputs / rename), '
         'remove_gate(every node), replace_subcircuit(every pair of disjoint node sets I (|I|<=2, 3 when n+k<=4) and O (|O|<=2) x '
         'replacement in {fresh copy of the slice, canonical mux-tree re-synthesis, copy with double negation} x boundary labels '
@@ -598,7 +602,79 @@ def check_circuit(n, gates, acc, pol, rs_only=False, alpha=None):
     acc.sample({**space.spec_json(n, gates, pols[0]), 'block': True, 'I': ['x0'], 'O': [space.label(n, n + k - 1)], 'replacement': 'mux/fresh'})
 
 
+def check_deep(acc, pattern, L, storage):
+    """rename / fix inputs / remove on a chain deeper than the recursion limit"""
+    from cirbo.core.circuit.exceptions import CircuitError
+
+    base_case = {'deep_chain': pattern, 'length': L, 'storage': storage}
+    # rename: an inner gate, the last gate, an input with a thousand users
+    for old in (f'c{L // 2}', f'c{L - 1}', 'x1', 'x0'):
+        c, net = space.deep_chain(pattern, L, storage)
+        ref = net.tables()
+        case = {**base_case, 'op': ['rename_gate', old, 'zz_new']}
+        acc.states += 1
+        acc.transitions += 1
+        acc.traces += 1
+        ok, _ = guarded(acc, 'rename_gate', case, c.rename_gate, old, 'zz_new')
+        if not ok:
+            continue
+        sub = lambda x: 'zz_new' if x == old else x  # noqa: E731
+        got = refmodel.abstract(c)
+        want_gates = {sub(k): (t, tuple(sub(o) for o in ops)) for k, (t, ops) in net.gates.items()}
+        if got.gates != want_gates or got.inputs != [sub(i) for i in net.inputs] or got.outputs != [sub(o) for o in net.outputs]:
+            acc.violation('rename_gate/references-not-renamed', case, '')
+            continue
+        if refmodel.wellformed(c, deep=False):
+            acc.violation('rename_gate/ill-formed', case, refmodel.wellformed(c, deep=False)[:2])
+            continue
+        gt = got.tables()
+        if any(gt[sub(k)] != ref[k] for k in net.gates):
+            acc.violation('rename_gate/truth-table-changed', case, '')
+    # fix x1 := True, x2 := False: the cofactor over x0
+    c, net = space.deep_chain(pattern, L, storage)
+    ref = net.tables()
+    case = {**base_case, 'op': ['replace_inputs', ['x1'], ['x2']]}
+    acc.transitions += 1
+    ok, _ = guarded(acc, 'replace_inputs', case, c.replace_inputs, ['x1'], ['x2'])
+    if ok:
+        got = refmodel.abstract(c)
+        if got.inputs != ['x0'] or got.outputs != net.outputs or refmodel.wellformed(c, deep=False):
+            acc.violation('replace_inputs/remaining-inputs', case, f'{got.inputs}')
+        else:
+            gv = got.out_tables()
+            want = []
+            for o in net.outputs:
+                v = 0
+                for b in (0, 1):
+                    if (ref[o] >> (b * 4 + 2)) & 1:
+                        v |= 1 << b
+                want.append(v)
+            if gv != want:
+                acc.violation('replace_inputs/not-the-cofactor', case, f'got {gv} expected {want}')
+    # remove: a used gate must be refused, the unused last gate (no longer an output) removed
+    c, net = space.deep_chain(pattern, L, storage, outputs='last')
+    case = {**base_case, 'op': ['remove_gate', f'c{L // 2}']}
+    acc.transitions += 2
+    try:
+        c.remove_gate(f'c{L // 2}')
+        acc.violation('remove_gate/removes-a-used-gate', case, '')
+    except CircuitError:
+        pass
+    except Exception as e:  # noqa: BLE001
+        acc.violation(f'remove_gate/raises-{type(e).__name__}', case, repr(e)[:200])
+    try:
+        c.remove_gate(f'c{L - 1}')
+        g2 = refmodel.abstract(c)
+        if f'c{L - 1}' in g2.gates or g2.outputs or refmodel.wellformed(c, deep=False):
+            acc.violation('remove_gate/incomplete', {**base_case, 'op': ['remove_gate', f'c{L - 1}']}, f'{g2.outputs}')
+    except Exception as e:  # noqa: BLE001
+        acc.violation(f'remove_gate/raises-{type(e).__name__}', {**base_case, 'op': ['remove_gate', f'c{L - 1}']}, repr(e)[:200])
+    acc.outcome('op', ('deep', pattern))
+
+
 def run_task(task, acc):
+    if task.get('kind') == 'deep':
+        return check_deep(acc, task['pattern'], task['L'], task['storage'])
     alpha = RS_ALPHA if task.get('rs_only') else ALPHA
     for gates in space.enum_gates(task['n'], task['k'], alpha, space.prefix_from_task(task)):
         check_circuit(task['n'], gates, acc, task['pol'], task.get('rs_only', False))
@@ -607,6 +683,8 @@ def run_task(task, acc):
 def replay(case, acc):
     if 'task' in case:
         return run_task(case['task'], acc)
+    if 'deep_chain' in case:
+        return check_deep(acc, case['deep_chain'], case['length'], case['storage'])
     n, gates, outs = space.spec_from_json(case)
     net = space.spec_net(n, gates, outs)
     ref = net.tables()
